@@ -82,8 +82,17 @@ func c19content(kind string, v int) string {
 func c19genEdits(s *sim.Sim, n int) []c19edit {
 	var out []c19edit
 	version := 1
+	lastValid := c19valid(1)
 	for i := 0; i < n; i++ {
 		e := c19edit{}
+		if s.Choose(sim.SWork, 8) == 0 {
+			// the file goes back, byte for byte, to the last valid content (undo in the editor)
+			version++
+			e = c19edit{kind: "revert", version: version, content: lastValid, events: []string{"write"}}
+			e.wait = []time.Duration{0, 150 * time.Millisecond, time.Second, 3 * time.Second}[s.Choose(sim.SWork, 4)]
+			out = append(out, e)
+			continue
+		}
 		switch r := s.Choose(sim.SWork, 12); {
 		case r < 5:
 			e.kind = "valid"
@@ -105,8 +114,13 @@ func c19genEdits(s *sim.Sim, n int) []c19edit {
 		version++
 		e.version = version
 		e.content = c19content(e.kind, version)
+		if e.kind == "valid" || e.kind == "recreated" {
+			lastValid = e.content
+		}
 		e.torn = e.kind != "deleted" && e.kind != "unreadable" && len(e.content) > 10 && s.Choose(sim.SWork, 4) == 0
-		switch s.Choose(sim.SWork, 6) {
+		switch s.Choose(sim.SWork, 7) {
+		case 6:
+			e.events = []string{"rename-save"} // editors that write a temp file and rename it over the target
 		case 0:
 			e.events = []string{"write", "write"}
 		case 1:
@@ -207,6 +221,11 @@ func c19Dev(s *sim.Sim, p *sim.Params) {
 		case "chmod":
 			fsnotify.Emit(file, fsnotify.Chmod)
 			s.Fault("spurious-event")
+		case "rename-save":
+			fsnotify.Emit(file+".tmp", fsnotify.Create)
+			fsnotify.Emit(file+".tmp", fsnotify.Write)
+			fsnotify.Emit(file+".tmp", fsnotify.Rename)
+			fsnotify.Emit(file, fsnotify.Create)
 		}
 	}
 	sinceLast := time.Duration(0)
@@ -352,12 +371,14 @@ type c19server struct {
 	reloads    int
 	failReload bool
 	bad        string
+	lastRefused []byte // bytecode of the most recent Reload the server refused
 }
 
 func (sv *c19server) Reload(bc []byte) error {
 	sim.Yield("c19server.Reload")
 	if sv.failReload {
 		sv.failReload = false
+		sv.lastRefused = bc
 		sv.s.Fault("reload-fails")
 		return fmt.Errorf("injected reload failure")
 	}
@@ -414,6 +435,10 @@ func c19Library(s *sim.Sim, p *sim.Params) {
 	goods := [][]byte{bc1}
 	confirmed := 0
 	latestCompiles := true
+	onDisk := c19valid(1)
+	// after a Reload that failed on the server side the manager does not retry by itself; the
+	// version stays behind until the file content changes again (identical bytes are no edit)
+	failedFor := "\x00none"
 	edits := c19genEdits(s, 1+s.Choose(sim.SWork, 10))
 	for i, e := range edits {
 		content := e.content
@@ -428,6 +453,11 @@ func c19Library(s *sim.Sim, p *sim.Params) {
 			os.Mkdir(file, 0o755)
 		default:
 			os.WriteFile(file, []byte(content), 0o644)
+		}
+		if e.kind == "deleted" || e.kind == "unreadable" {
+			onDisk = "\x00gone"
+		} else {
+			onDisk = content
 		}
 		// an injected failure hits the next Reload call, which may belong to a later edit
 		injected := sv.failReload
@@ -460,6 +490,12 @@ func c19Library(s *sim.Sim, p *sim.Params) {
 				}
 			}
 			reloadFailed := injected && !sv.failReload // the injected failure was consumed by this edit's reload
+			if reloadFailed {
+				failedFor = onDisk
+			}
+			if failedFor == onDisk || (sv.lastRefused != nil && string(sv.lastRefused) == string(goods[len(goods)-1])) {
+				reloadFailed = true // same bytes as when the server refused the reload: nothing new to load
+			}
 			switch {
 			case match < 0:
 				s.Fail("oracle", "library-server-broken", fmt.Sprintf("after edit %d (%s) the server's active bytecode is not the compilation of any content that ever compiled; reloads=%d events=%d\n%s", i, e.kind, sv.reloads, len(events), strings.Join(sample, "\n")))
